@@ -154,6 +154,32 @@ class Interp:
             return
         self.sweep()
 
+    def op_orphan(self, op):
+        """The program keeps a controller and reaches its world through it
+        only: controller.world is that world for as long as the controller
+        is attached, collections or not."""
+        import gc
+        import weakref
+        d = self.desper
+
+        class Marker:
+            pass
+        w = d.World()
+        ctl = d.Controller()
+        eid = w.create_entity(ctl, Marker())
+        ref = weakref.ref(w)
+        del w
+        gc.collect()
+        self.probes['world_reached_through_its_controller_only'] += 1
+        got = ctl.world
+        if got is None or got is not ref():
+            self.fail('controller_backlink', f'controller.world is '
+                      f'{got!r} after the program dropped its own reference '
+                      f'to the world and a collection ran')
+        if ctl.entity != eid or not ctl.has_component(Marker):
+            self.fail('controller_backlink', 'the controller of a world '
+                      'reached through it only lost its entity/components')
+
     def op_create(self, op):
         _, slot, ci, ks = op
         if slot in self.slots:
@@ -727,6 +753,8 @@ def generate(prop, run_seed, tier='quick', tolerate=frozenset()):
             ops.append(['proto', gen_proto(rng)])
         else:
             ops.append(['adopt', slot])
+    if crng.random() < .08:
+        ops.insert(crng.randint(0, len(ops)), ['orphan'])
     return {'format': 1, 'engine': 'twin', 'config': cfg, 'ops': ops,
             'scripts': {}}
 
